@@ -325,7 +325,7 @@ def gen_C05(rng, tier, changed):
                     ops += [op('get', 0, 0, i, j) for i in range(c) for j in range(r)]
                 ops += [op('transpose', 0), op('switch_order', 0), op('set_order', 0, order), op('switch_order_wr', 0),
                         op('set_order_wr', 0, order ^ 1), op('set_order_wr', 0, order)]
-                elem = 'tr' if (r + c) % 3 else rng.choice(['tr', 'w24', 'unit', 'zd'])
+                elem = 'tr' if (r + c) % 3 else rng.choice(['tr', 'w24', 'unit', 'zd', 'b1'])
                 cases.append(Case(f'C05-{r}x{c}o{order}', ops, elem))
     nrand = 150 if tier == 'quick' else 1500
     for i in range(nrand):
@@ -351,11 +351,11 @@ def oracle_C05(case, hlines):
     ops = [o for o in case.ops if o[1] != 'fault']
     for i, (o, line) in enumerate(zip(ops, hlines)):
         cur = parse_slot(line, 0)
-        if o[1] == 'transpose' and prev and cur and case.elem in ('tr', 'w24'):
+        if o[1] == 'transpose' and prev and cur and case.elem in ('tr', 'w24', 'pn'):
             if logical(cur) != transpose_rows(logical(prev), prev[2]) or cur[0] != prev[0] or (cur[1], cur[2]) != (prev[2], prev[1]):
                 out.append(dict(kind='oracle', op_index=i, op='transpose', detail='result is not the transpose of the operand (or order changed)',
                                 observed=line.split(' ;; ')[1], expected='transpose of ' + str(logical(prev))))
-        if o[1] in ('switch_order', 'set_order') and prev and cur and case.elem in ('tr', 'w24'):
+        if o[1] in ('switch_order', 'set_order') and prev and cur and case.elem in ('tr', 'w24', 'pn'):
             if logical(cur) != logical(prev):
                 out.append(dict(kind='oracle', op_index=i, op=o[1], detail='order change altered the logical contents',
                                 observed=line.split(' ;; ')[1], expected=str(logical(prev))))
@@ -617,7 +617,7 @@ def gen_C10(rng, tier, changed):
     shapes = [(r, c) for r in range(0, 5) for c in range(0, 5)]
     for (r, c) in shapes:
         for order in (0, 1):
-            for elem in (['tr'] if tier == 'quick' and (r + c) % 2 else ['tr', 'w24', 'zd']):
+            for elem in (['tr'] if tier == 'quick' and (r + c) % 2 else ['tr', 'w24', 'zd', 'b1']):
                 sh = Shadow()
                 ops = build(sh, 0, r, c, order, how='rowreshape')
                 for m in range(r + 2):
@@ -669,7 +669,7 @@ def oracle_C10(case, hlines):
     for i, (o, line) in enumerate(zip(ops, hlines)):
         cur = parse_slot(line, 0)
         obs = line.split(' ;; ')[0]
-        if prev and cur and o[1] in ('swap_rows', 'swap_cols') and obs == '()' and case.elem in ('tr', 'w24'):
+        if prev and cur and o[1] in ('swap_rows', 'swap_cols') and obs == '()' and case.elem in ('tr', 'w24', 'pn'):
             a, b = o[2][1], o[2][2]
             ext = prev[1] if o[1] == 'swap_rows' else prev[2]
             if a < ext and b < ext:
@@ -710,7 +710,7 @@ def gen_C14(rng, tier, changed):
         r1, c1, r2, c2 = (rng.randint(0, 6) for _ in range(4))
         ops = build(sh, 0, r1, c1, rng.randrange(2), rng=rng) + build(sh, 1, r2, c2, rng.randrange(2), rng=rng)
         ops += [op('overwrite', 0, 1), op('overwrite', 1, 0)]
-        cases.append(Case(f'C14-r{i}', ops, rng.choice(['tr', 'w24', 'zd'])))
+        cases.append(Case(f'C14-r{i}', ops, rng.choice(['tr', 'w24', 'zd', 'b1'])))
     return cases
 
 
@@ -719,7 +719,7 @@ def oracle_C14(case, hlines):
     ops = [o for o in case.ops if o[1] != 'fault']
     prev = None
     for i, (o, line) in enumerate(zip(ops, hlines)):
-        if o[1] == 'overwrite' and prev is not None and case.elem in ('tr', 'w24'):
+        if o[1] == 'overwrite' and prev is not None and case.elem in ('tr', 'w24', 'pn'):
             d, s = o[2]
             pd, ps = parse_slot(prev, d), parse_slot(prev, s)
             cd, cs = parse_slot(line, d), parse_slot(line, s)
@@ -1016,6 +1016,8 @@ def gen_C06(rng, tier, changed):
                     ops.append(op(nm, 0, n, rows=[rand_script(rng, ln + 3)]))
                     ops.append(op(nm + '_mut', 0, n, 1, rows=[rand_script(rng, ln + 3)]))
             cases.append(Case(f'C06-{r}x{c}o{order}', ops, 'tr'))
+            if (r + c + order) % 2 == 0 or tier != 'quick':
+                cases.append(Case(f'C06-{r}x{c}o{order}b', ops, 'b1'))
     return cases
 
 
@@ -1764,7 +1766,7 @@ def gen_C03(rng, tier, changed):
     k = 0
     for (r, c) in shapes:
         for order in (0, 1):
-            for elem in ('tr', 'w24', 'unit', 'zd'):
+            for elem in ('tr', 'w24', 'b1', 'unit', 'zd'):
                 if tier == 'quick' and elem in ('unit', 'zd') and (r + c + order) % 2:
                     continue
                 sh = Shadow()
@@ -1788,7 +1790,7 @@ def gen_C03(rng, tier, changed):
                 ops = build(sh, 0, r, c, order, how='rowreshape')
                 for scr in all_nested_scripts(nvec, L):
                     ops.append(op(nm, 0, 0, rows=[scr]))
-                cases.append(Case(f'C03-x{r}x{c}o{order}{nm[5]}', ops, 'w24' if order else 'tr'))
+                cases.append(Case(f'C03-x{r}x{c}o{order}{nm[5]}', ops, ('w24' if order else 'tr') if nm[5] == 'r' else ('b1' if order else 'tr')))
     # zero-sized elements, up to usize::MAX of them, every alignment: the address counters must neither wrap nor reach null
     kk = 0
     huge = [(1, UMAX), (UMAX, 1), (1, UMAX - 1), (UMAX - 7, 1), (2**32, 2**32 - 1), (2**32 - 1, 2**32), (3, (UMAX // 3)), (UMAX // 2, 2), (1, IMAX + 1), (5, 7)]
@@ -1840,7 +1842,7 @@ def sim_nested_huge(r, c, axis, script):
 
 
 def oracle_C03(case, hlines):
-    out = oracle_C06(case, hlines) if case.elem in ('tr', 'w24') else []
+    out = oracle_C06(case, hlines) if case.elem in ('tr', 'w24', 'pn') else []
     # zero-sized elements: counts and lengths only
     if case.elem in ('unit', 'zd'):
         ops = [o for o in case.ops if o[1] != 'fault']
@@ -2068,6 +2070,10 @@ def gen_C02(rng, tier, changed):
             # in-place family
             for (tr_, tc) in [(r + 1, c + 1), (max(0, r - 1), c), (3, 3), (0, 0)]:
                 emit(base, op('resize', 0, tr_, tc), max(size, tr_ * tc) + 1)
+            for (tr_, tc) in [(r + 1, c + 1), (r, c + 2), (r + 2, c)]:
+                emit(base, op('resize', 0, tr_, tc), tr_ * tc - size + 1, elem='pn')
+            emit(base + other_same, op('overwrite', 0, 1), size + 1, elem='pn')
+            emit(base, op('clone', 1, 0), size + 1, elem='pn')
             emit(base, op('clear', 0), size + 1)
             emit(base, op('apply', 0, 1), 2 * size + 1)
             emit(base, op('sc_assign', 0, 9, 1), 3 * size + 1)
@@ -2173,7 +2179,7 @@ def oracle_C17(case, hlines):
     out = []
     ops = [o for o in case.ops if o[1] != 'fault']
     for i, (o, line) in enumerate(zip(ops, hlines)):
-        if o[1] == 'eq' and obs_of(line) != 'true' and case.elem in ('tr', 'w24'):
+        if o[1] == 'eq' and obs_of(line) != 'true' and case.elem in ('tr', 'w24', 'pn'):
             out.append(dict(kind='oracle', op_index=i, op='threaded_vectors_mut', observed=obs_of(line), expected='true',
                             detail='mutating distinct rows/columns on several threads differs from doing the same sequentially'))
     return out
@@ -2196,6 +2202,8 @@ def gen_C18(rng, tier, changed):
         for o in range(5):
             want = 'S:' + '.'.join(str(ord(ch)) for ch in ('B' * 18 if o in (0, 2) else 'LLRRLLRRLLRRLLRRLL'))
             cases.append(KCase(f'C18-{PRIMS[t]}-{o}', 'scalar_forms', [t, o], meta=dict(want=want)))
+            if t >= 6:
+                cases.append(KCase(f'C18-{PRIMS[t]}-{o}-signed', 'scalar_forms', [t, o, 1], meta=dict(want=want)))
         if t >= 6:
             cases.append(KCase(f'C18-{PRIMS[t]}-neg', 'scalar_neg', [t], meta=dict(want='S:76.76')))
     k = 0
